@@ -173,8 +173,17 @@ func (c *ctx) rangeSection(r *lib.RNG) {
 			honest := strings.HasPrefix(cl.Kind, "honest")
 			switch {
 			case class == "panic" || class == "hang":
-				res.Violate(lib.Violation{Sig: impl + ":range:" + cl.Kind + ":" + class,
-					What: fmt.Sprintf("%s.VerifyRangeProof %ss (%s): %s", impl, class, cl.Kind, msg), Replay: cl})
+				// one signature per panic site, whatever the claim was (honest or altered)
+				site := "other"
+				if strings.Contains(msg, "invalid node") {
+					site = "unsetInternal-invalid-node"
+				}
+				if class == "hang" {
+					site = "hang"
+				}
+				res.Hit("range:" + impl + ":panic-on-" + cl.Kind)
+				res.Violate(lib.Violation{Sig: impl + ":range:panic:" + site,
+					What: fmt.Sprintf("%s.VerifyRangeProof %ss (claim: %s): %s", impl, class, cl.Kind, msg), Replay: cl})
 			case honest && class != "ok":
 				res.Violate(lib.Violation{Sig: impl + ":range:" + cl.Kind + ":rejected",
 					What: fmt.Sprintf("%s.VerifyRangeProof rejects the range proof returned by GetRangeProof for a true claim (%s): %s", impl, cl.Kind, msg), Replay: cl})
